@@ -126,7 +126,7 @@ def rand_history(rng):
                 rows.append(reformat(rng, last_rows[i]))
             else:
                 rows.append(rand_row(rng, rng.choice([0, 1, max(0, cur_w - 1), cur_w, cur_w, cur_w + 1, cur_w + 3])))
-        kind = rng.choices(["fsarray", "fsarray_rowassign", "list"], [25, 12, 63])[0]
+        kind = rng.choices(["fsarray", "fsarray_rowassign", "list", "inplace"], [22, 10, 53, 15])[0]
         ops.append(["render", kind, rows, [rng.randrange(cur_h), rng.randrange(cur_w)]])
         last_rows = rows
         last_size = (cur_h, cur_w)
@@ -220,6 +220,7 @@ def _run(inp):
         w = FullscreenWindow(out_stream=out, hide_cursor=inp["hide"])
         with w:
             res["enter"] = take()
+            keep = None
             for op in inp["ops"]:
                 if op[0] == "resize":
                     _SIZE[0], _SIZE[1] = op[1], op[2]
@@ -227,7 +228,15 @@ def _run(inp):
                 rows = [build_row(r, prev) for r in op[2]]
                 prev = rows
                 res["arrays"].append([canon_row(r) for r in rows])
-                if op[1] == "fsarray":
+                if op[1] == "inplace" and isinstance(keep, FSArray) and len(keep.rows) == len(rows):
+                    # the application keeps ONE array object across frames, changes rows of it and renders it again
+                    arr = keep
+                    for i, r in enumerate(rows):
+                        arr[i] = r if isinstance(r, FmtStr) else fmtstr(r)
+                elif op[1] == "inplace" and isinstance(keep, list) and keep is not None and rows:
+                    arr = keep
+                    arr[:] = rows                      # the same list object, edited in place
+                elif op[1] == "fsarray":
                     arr = fsarray(rows)
                 elif op[1] == "fsarray_rowassign":
                     # an FSArray no wider than the terminal whose rows were stored by integer-index assignment
@@ -236,7 +245,12 @@ def _run(inp):
                     for i, r in enumerate(rows):
                         arr[i] = r if isinstance(r, FmtStr) else fmtstr(r)
                 else:
-                    arr = rows
+                    arr = rows if op[1] != "inplace" else (list(rows) if len(rows) % 2 else
+                                                           FSArray(len(rows), min([_SIZE[1]] + [max(len(r) for r in rows)] if rows else [0])))
+                    if isinstance(arr, FSArray):
+                        for i, r in enumerate(rows):
+                            arr[i] = r if isinstance(r, FmtStr) else fmtstr(r)
+                keep = arr
                 try:
                     w.render_to_terminal(arr, tuple(op[3]))
                     res["renders"].append(take())
